@@ -111,8 +111,14 @@ def run(tier, seed):
                           {"property": PROP, "why": "VM trace rejected by KotoVm.tla at event %d: %s" % (v["at"], v["why"]),
                            "source": t["_src"], "events_before": t["events"][max(0, v["at"] - 6): v["at"]]})
     nev = sum(len(t["events"]) for t in traces)
+    # design level: the operational model of vm.rs against the same rules, the timeout bugs it must reject, and liveness
+    import mc_kotovm
+    mc = mc_kotovm.run(tier, bugs=("timeout_catch", "timeout_text"), liveness=True)
+    if "design_rejected" in mc or "liveness_violated" in mc:
+        rep.violation("design_model", {"property": PROP, "why": "MC_KotoVm.tla: %s" % (mc.get("design_rejected") or "TimeoutEventuallyFires violated"), "tlc": mc.get("tlc")})
     rep.coverage = {
-        "states": max(1, tst["states"]), "transitions": max(1, tst["transitions"]),
+        "states": max(1, tst["states"]) + mc.get("states", 0), "transitions": max(1, tst["transitions"]) + mc.get("states", 0),
+        "design_model": {k: v for k, v in mc.items() if k != "tlc"},
         "traces_validated_against_impl": len(traces),
         "samples": [{"shape": cases[0][0], "limit_ms": cases[0][2], "source": cases[0][1]}],
         "evaluations": len(cases), "distinct_nontrivial": len(cases),
